@@ -16,15 +16,15 @@ fn cat(probs: &[f64]) -> ModelSpec {
 /// ANS: `encode_reverse(symbols, models)` == encode symbols back to front
 fn ans_enc(models: Vec<ModelSpec>, msg: &[(i64, usize)], expect: &[u64]) -> Trace {
     let ops = msg.iter().rev().map(|(s, m)| AnsOp::Enc { sym: *s, m: *m }).collect();
-    Trace::Ans(AnsTrace { cfg: 5, backend: Backend::Vec, init: Init::Empty, models, ops, expect: Some(expect.to_vec()), expect_decoded: None })
+    Trace::Ans(AnsTrace { cfg: 5, backend: Backend::Vec, init: Init::Empty, models, ops, expect: Some(expect.to_vec()), expect_decoded: None, reprs: vec![] })
 }
 fn ans_dec(models: Vec<ModelSpec>, words: &[u64], ms: &[usize], expect: &[i64]) -> Trace {
     let ops = ms.iter().map(|m| AnsOp::Dec { m: *m }).collect();
-    Trace::Ans(AnsTrace { cfg: 5, backend: Backend::Vec, init: Init::Compressed(words.to_vec()), models, ops, expect: None, expect_decoded: Some(expect.to_vec()) })
+    Trace::Ans(AnsTrace { cfg: 5, backend: Backend::Vec, init: Init::Compressed(words.to_vec()), models, ops, expect: None, expect_decoded: Some(expect.to_vec()), reprs: vec![] })
 }
 fn range_enc(models: Vec<ModelSpec>, msg: &[(i64, usize)], expect: &[u64]) -> Trace {
     let ops = msg.iter().map(|(s, m)| RangeOp::Enc { sym: *s, m: *m }).collect();
-    Trace::Range(RangeTrace { cfg: 5, sink: Sink::Vec, prefix: vec![], models, ops, source: Source::CursorVec, suffix: Suffix::None, seeks: vec![], expect: Some(expect.to_vec()), reassemble_at: vec![] })
+    Trace::Range(RangeTrace { cfg: 5, sink: Sink::Vec, prefix: vec![], models, ops, source: Source::CursorVec, suffix: Suffix::None, seeks: vec![], expect: Some(expect.to_vec()), reassemble_at: vec![], reprs: vec![] })
 }
 
 pub fn vectors() -> Vec<Trace> {
